@@ -338,15 +338,17 @@ pub fn parse_leg(args: &Args) {
     }
     cx.rep.max("enumerated_lmax", lmax as u64);
     // (2) header-shaped strings (in-process lengths only)
+    let stride = args.get_u64("grid-stride", 1) as usize;
     for (i, s) in header_shaped(false).iter().enumerate() {
-        if i % args.shards != args.shard {
+        if i % args.shards != args.shard || (i / args.shards) % stride != 0 {
             continue;
         }
         check_string(&mut cx, s);
         cx.rep.count("header_shaped");
     }
     // (3) nesting, moderate depth in-process (deep nesting runs in c15-huge)
-    for d in [1usize, 2, 5, 50, 500] {
+    let depths: &[usize] = if stride > 1 { &[1, 2, 5] } else { &[1, 2, 5, 50, 500] };
+    for &d in depths {
         let mut s = Vec::new();
         for _ in 0..d {
             s.extend_from_slice(b"*1\r\n");
@@ -389,7 +391,7 @@ pub fn parse_leg(args: &Args) {
         check_string(&mut cx, &s);
         cx.rep.count("random");
     }
-    rep.exhaustive = true;
+    rep.exhaustive = stride == 1;
     rep.note(format!("exhaustive for all strings over {:?} up to length {} and for the header-shaped grid; random part sampled", lossy(ALPHABET), lmax));
     rep.sample(json!({"input": "*2\\r\\n$1\\r\\na", "codec": "incomplete", "parser": "incomplete"}));
     rep.finish(args);
